@@ -6,10 +6,6 @@ impl AccountStatus {
     pub uninterp spec fn storage_known(self) -> bool;
     #[verifier::external_body] pub fn is_storage_known(&self) -> (b: bool) ensures b == self.storage_known() { unimplemented!() }
 }
-impl AccountInfo {
-    pub uninterp spec fn empty_spec(&self) -> bool;
-    #[verifier::external_body] pub fn is_empty(&self) -> (b: bool) ensures b == self.empty_spec() { unimplemented!() }
-}
 impl Bytecode { pub fn clone(&self) -> (r: Self) ensures r == *self { *self } }
 pub mod metrics { #[verifier::external_body] pub struct Histogram { p: u8 } impl Histogram { #[verifier::external_body] pub fn record(&self, v: f64) { unimplemented!() } } }
 #[verifier::external_body] #[derive(Clone, Copy)] pub struct Instant { p: u8 }
